@@ -229,6 +229,13 @@ const UNI: [char; 30] = [
 ];
 
 pub fn gen_string(d: &mut Dec) -> String {
+    if d.below(40) == 39 {
+        // long text: ASCII prefix of 0..3 characters, then 100..300 two- or three-byte characters
+        let pre = d.below(4);
+        let n = 100 + d.below(200);
+        let c = *d.pick(&['é', '€', 'ß']);
+        return format!("{}{}", "x".repeat(pre), c.to_string().repeat(n));
+    }
     match d.below(7) {
         0 => {
             let n = d.below(5);
